@@ -413,6 +413,16 @@ def v6_ok_variants(rng, state, mirror, off, n, fl):
     return out
 
 
+def udp_len_variants(mirror, off):
+    """the UDP length field is not matched: values below the header size, and the datagram cut right behind the header"""
+    out = []
+    for v in (0, 1, 7, 8, 9, 0xffff):
+        m = bytearray(mirror); m[off + 4:off + 6] = v.to_bytes(2, "big")
+        out.append(("udplen", bytes(m)))
+        out.append(("udplen", bytes(m[:off + 8])))
+    return out
+
+
 def tcp_flag_variants(mirror, off):
     """SYN-ACK, RST, RST-ACK, ACK, FIN-ACK, PSH-ACK, no flag, all flags: the flags are not matched"""
     out = []
@@ -553,6 +563,8 @@ def replies_for(rng, state, mirror, req, tier_mult, others):
         if name == "tcp" and len(mirror) >= off + 20:
             out += tcp_opt_variants(rng, mirror, off, 2 * tier_mult)
             out += tcp_flag_variants(mirror, off)
+        if name == "udp" and len(mirror) >= off + 8:
+            out += udp_len_variants(mirror, off)
     # replies to other requests
     for o in others:
         out.append(("other-request's-mirror", o))
@@ -583,7 +595,7 @@ def classify(op, impl):
 
 
 GROUPS = {"len-random": "lengths", "len-mirror": "lengths", "len-stack": "lengths", "trunc": "trunc", "perturb": "perturb", "perturb2": "perturb",
-          "bitflip": "perturb", "random": "perturb", "v6ext": "options", "ipopt": "options", "tcpopt": "options", "tcpflags": "options",
+          "bitflip": "perturb", "random": "perturb", "v6ext": "options", "ipopt": "options", "tcpopt": "options", "tcpflags": "options", "udplen": "options",
           "octet": "matched", "boundary": "matched", "v6chain": "v6chain", "v6chain-perturb": "v6chain", "v6chain-edge": "v6chain"}
 
 
